@@ -326,3 +326,25 @@ SPECS["C12"] = {
     "assumptions": ["pre-emptions only at sync operations (the probes add one inside each block)", "sequential consistency"],
     "outside": ["> 3 threads", "nesting > 2", "threads created via sinks on pool workers (same mutexRuntime code, tids from the pool)"],
 }
+
+_C11 = ["interpreter/common.go", "interpreter/c11.go"]
+SPECS["C11"] = {
+    "explanation": "Real provider, sinks declared through the real parser/interpreter, 2-worker processor; events with symbolic failing flags are added and processed "
+                   "concurrently. Pass 1 (happens-before discovery) reports unsynchronised access to shared cells and package-level state (confirmed with the race "
+                   "detector); pass 2 pre-empts at those sites with symbolic scheduling decisions and asserts per event: error recorded iff its flag is set, with its "
+                   "own type/detail/data, attributed to its event; marks show every invocation saw its own event and locals.",
+    "level_text": "bounded: 2 workers, 2-3 events, same sink or two sinks, all failing-flag assignments, all schedules with <= P pre-emptions at discovered racy sites",
+    "level_note": "trusts go/ssa, gosym scheduler/HB pass, z3; pre-emptions only at sites pass 1 reports; round-robin at blocking switches",
+    "harnesses": [
+        {"name": "H1-same-sink", "pkg": "interpreter", "files": _C11, "fn": "VerifC11Sinks",
+         "what": "2 events on one sink, 2 workers", "reach": ["quiescent"],
+         "quick": {"params": {"SINKS": 1, "EVENTS": 2, "P": 1}, "two_pass": True, "unwind": 60, "wall_s": 900},
+         "thorough": {"params": {"SINKS": 1, "EVENTS": 3, "P": 2}, "two_pass": True, "unwind": 60, "wall_s": 3000}},
+        {"name": "H1-two-sinks", "pkg": "interpreter", "files": _C11, "fn": "VerifC11Sinks",
+         "what": "2 events on two different sinks, 2 workers", "reach": ["quiescent"],
+         "quick": {"params": {"SINKS": 2, "EVENTS": 2, "P": 1}, "two_pass": True, "unwind": 60, "wall_s": 900},
+         "thorough": {"params": {"SINKS": 2, "EVENTS": 2, "P": 2}, "two_pass": True, "unwind": 60, "wall_s": 3000}},
+    ],
+    "assumptions": ["pre-emptions only at sites the discovery pass reports", "sequential consistency"],
+    "outside": ["16 workers", "races inside fmt/logger internals", "calls to shared global functions from sinks"],
+}
